@@ -9,6 +9,7 @@ pub fn registry() -> Vec<Box<dyn FamilyDyn>> {
         Box::new(FamRunner::new(crate::fam_lock::program_set)),
         Box::new(FamRunner::new(crate::fam_atomic::program_set)),
         Box::new(FamRunner::new(crate::fam_sync::program_set)),
+        Box::new(FamRunner::new(crate::fam_mpsc::program_set)),
     ]
 }
 
@@ -147,11 +148,36 @@ pub fn c05(ctx: &CheckCtx) -> CheckResult {
     res
 }
 
+/// Generic "trace conformance of one or more families" check.
+pub fn conformance(ctx: &CheckCtx, fams: &[&str], assumptions: &[&str]) -> CheckResult {
+    let mut res = CheckResult::new("model_checking");
+    let set = if ctx.tier.is_thorough() { "thorough" } else { "quick" };
+    let mode = Mode {
+        complete: false,
+        ..Mode::default()
+    };
+    let items: Vec<(&str, &str, Mode)> = fams.iter().map(|f| (*f, set, mode.clone())).collect();
+    run_e2(
+        ctx,
+        &mut res,
+        &items,
+        &[VKind::Sound, VKind::Enabled, VKind::Ending, VKind::Abort],
+        if ctx.tier.is_thorough() { 1500.0 } else { 50.0 },
+    );
+    res.cov("rule", e2_rule());
+    res.assumptions.push("small-scope: programs up to the stated size only".into());
+    for a in assumptions {
+        res.assumptions.push(a.to_string());
+    }
+    res
+}
+
 pub fn run_check(id: &str, tier: Tier) -> ! {
     let ctx = CheckCtx::new(id, tier);
     let res = match id {
         "C04" => c04(&ctx),
         "C05" => c05(&ctx),
+        "C06" => conformance(&ctx, &["mpsc"], &["reference model: FIFO channel with FIFO queue of blocked senders (Appendix A); rendezvous = hand-off only to a waiting receiver, as the property states"]),
         _ => {
             eprintln!("MACHINERY-ERROR: no check registered for {}", id);
             std::process::exit(2)
